@@ -659,7 +659,7 @@ func genC14(g *Gen) {
 		}
 		var p [][2]int
 		for i := 0; i < n; i++ {
-			p = append(p, [2]int{i*3 - 40, (i*i + li) % 11 - 2})
+			p = append(p, [2]int{i*3 - 40, (i*i+li)%11 - 2})
 		}
 		emit(c14MapOps(pairsTok(p), []string{ints([]int{-40, -37, 5, 1000000}), ints(nil), ints([]int{2, 8, 11})}, []int{3, -9}, 1))
 	}
